@@ -790,7 +790,7 @@ class ExprFam(WorldFamily):
                        "derived": derived + [[DERIVED0 + 5, ["B", t]]], "view": v,
                        "target": DERIVED0 + 5, "arith": self.arith}
         # (3) seeded random trees, depth <= 3 (quick) / 5 (thorough)
-        n = (2500 if tier == "quick" else 60000) // (2 if self.arith else 1)
+        n = (6000 if tier == "quick" else 90000) // (2 if self.arith else 1)
         maxd = 3 if tier == "quick" else 5
         pool = self.shape_pool(tier)
         for _ in range(n):
@@ -831,7 +831,7 @@ class ULink(WorldFamily):
     batch = 200
 
     def _cases(self, tier, rng):
-        n = 700 if tier == "quick" else 20000
+        n = 2000 if tier == "quick" else 30000
         pool = [[3], [2, 3], [2, 2, 2], [1, 3], [3, 1]]
         for i in range(n):
             sh = rng.choice(pool)
@@ -881,6 +881,20 @@ def rand_ptree(rng, depth, labels, keys, top=True, no_div=False):
         rr = ["n", rng.choice(LITERALS + INT_LITERALS)]
         return ["b", op, l, rr] if rng.random() < 0.5 else ["b", op, rr, l]
     return ["b", op, l, rand_ptree(rng, depth - 1, labels, keys, False, no_div)]
+
+
+def rand_ptree_int(rng, depth, labels, keys, top=True):
+    if depth == 0 or (not top and rng.random() < 0.3):
+        i = rng.randrange(len(labels))
+        return ["r", labels[i], keys[i]]
+    if rng.random() < 0.15:
+        return ["neg", rand_ptree_int(rng, depth - 1, labels, keys, False)]
+    op = rng.choice(["add", "sub", "mul"])
+    l = rand_ptree_int(rng, depth - 1, labels, keys, False)
+    if rng.random() < 0.3:
+        rr = ["n", rng.choice(INT_LITERALS)]
+        return ["b", op, l, rr] if rng.random() < 0.5 else ["b", op, rr, l]
+    return ["b", op, l, rand_ptree_int(rng, depth - 1, labels, keys, False)]
 
 
 PREC = {"add": 0, "sub": 0, "mul": 1, "div": 1, "neg": 2, "pow": 3}
@@ -934,7 +948,7 @@ class ParsedFam(WorldFamily):
     batch = 200
 
     def _cases(self, tier, rng):
-        n = 1500 if tier == "quick" else 40000
+        n = 4000 if tier == "quick" else 60000
         pool = [[3], [2, 3], [2, 2, 2], [1, 3]]
         # constant commands (the scalar rule) on every kind of view
         for sh in ([3], [2, 3]):
@@ -990,7 +1004,7 @@ class GramFam(Family):
     batch = 1000
 
     def cases(self, tier, rng):
-        n = 2000 if tier == "quick" else 40000
+        n = 4000 if tier == "quick" else 60000
         labels = TAG_LABELS
         for i in range(n):
             k = rng.randint(1, 3)
@@ -1101,7 +1115,7 @@ class HistFam(Family):
             for old in [STORED0, STORED0 + 1, keymap["a"], keymap["c"]]:
                 yield {"shape": sh, "ops": st + adds + [["update", old, 90], ["remove", keymap["d"]]]}
         # seeded random histories
-        n = 500 if tier == "quick" else 12000
+        n = 3000 if tier == "quick" else 40000
         maxlen = 6 if tier == "quick" else 10
         for _ in range(n):
             sh = rng.choice([[3], [2, 2], [2]])
@@ -1124,6 +1138,20 @@ class HistFam(Family):
                         fresh_s += 1
                         live_prim.append(k)
                     ops.append(["add_s", k, stored_spec(rng, sh, "i", lo=-3, hi=3)])
+                elif r < 0.25:
+                    # a parsed command over integer data (integer literals, + - * and unary minus)
+                    k = rng.randint(1, 2)
+                    labels = rng.sample(TAG_LABELS, k)
+                    keys = [rng.choice(live) for _ in range(k)]
+                    tr = rand_ptree_int(rng, rng.randint(1, 2), labels, keys)
+                    ops.append(["add_x", fresh_d, pprint(tr, rng), [[lab, key] for lab, key in zip(labels, keys)], tr])
+                    live_der.append(fresh_d)
+                    fresh_d += 1
+                elif r < 0.33:
+                    f = rng.choice([1, 2, 3])
+                    ops.append(["add_u", fresh_d, [rng.choice(live) for _ in range(USER_ARITY[f])], f, rng.random() < 0.3])
+                    live_der.append(fresh_d)
+                    fresh_d += 1
                 elif r < 0.6:
                     t = rand_tree(rng, rng.randint(1, 2), live, ["add", "sub", "mul"], [], consts=INT_CONSTS)
                     if rng.random() < 0.04:   # reads an id that is not (or no longer) in the dataset
@@ -1187,6 +1215,22 @@ class HistFam(Family):
                 except ValueError:
                     err = "value-error"
                 sx_ops.append(["add", op[1], ["B", sx_tree(op[2], T)]])
+            elif op[0] == "add_x":     # parsed command: [op, key, text, refs, ptree]
+                for _, k in op[3]:
+                    b.cids.setdefault(k, cid_of(k))
+                try:
+                    b.add_parsed(op[1], op[2], op[3])
+                except ValueError:
+                    err = "value-error"
+                sx_ops.append(["add", op[1], sx_link(["X", op[2], op[3]], T)])
+            elif op[0] == "add_u":     # user function: [op, key, froms, fcode, ravel]
+                for k in op[2]:
+                    b.cids.setdefault(k, cid_of(k))
+                try:
+                    b.add_using(op[1], op[2], op[3], op[4])
+                except ValueError:
+                    err = "value-error"
+                sx_ops.append(["add", op[1], ["U", list(op[2]), op[3], bool(op[4])]])
             elif op[0] == "remove":
                 b.data.remove_component(cid_of(op[1]))
                 sx_ops.append(["remove", op[1]])
